@@ -612,11 +612,197 @@ def r_einsum_broadcast_first(c):
             "descriptor kinds only, or a reduction bound is taken from a broadcast axis")
 
 
+# ------------------------------------------------------------- R02-DIRECTION
+_OUT, _IN = "result-axis", "operand-axis"
+
+
+def _perm_roles(fd, perm_txt):
+    """Small role inference for code that handles an axis permutation P
+    (`<node>.axis_permutation`, textually ``perm_txt``): which integer expressions
+    number axes of the RESULT and which number axes of the OPERAND.  By the node's
+    definition result axis k is operand axis P[k]:
+
+        for a, b in enumerate(P)      a: result axis, b: operand axis
+        for b in P                    b: operand axis (the k-th item belongs to result axis k)
+        P[e]      e must be a result axis,  the value is an operand axis
+        P.index(e) e must be an operand axis, the value is a result axis
+        for i in range(..)            i: either; fixed by how it is used
+
+    Returns (position role, role of what is placed there, node) for every place the
+    code fills an axis-indexed sequence: a store ``L[x] = f(y)`` or the items of a
+    comprehension / a list that is appended to in a loop.  Roles are None when they
+    cannot be told."""
+    is_p = lambda e: ast.unparse(e) == perm_txt       # noqa: E731
+
+    def gens_of(node):
+        """[(target, iter)] of the loops/generators enclosing node, innermost last"""
+        out = []
+        cur = node
+        while getattr(cur, "_parent", None) is not None:
+            par = cur._parent
+            if isinstance(par, (ast.For,)) and cur in par.body:
+                out.append((par.target, par.iter))
+            if isinstance(par, (ast.ListComp, ast.GeneratorExp, ast.SetComp)) and cur is par.elt:
+                for g in par.generators:
+                    out.append((g.target, g.iter))
+            cur = par
+        return out
+
+    def env_of(gens):
+        env, free, implicit = {}, set(), None
+        for tgt, it in gens:
+            if isinstance(it, ast.Call) and ast.unparse(it.func) == "enumerate" \
+                    and it.args and is_p(it.args[0]) and isinstance(tgt, ast.Tuple) \
+                    and len(tgt.elts) == 2 and all(isinstance(e, ast.Name) for e in tgt.elts):
+                env[tgt.elts[0].id], env[tgt.elts[1].id] = _OUT, _IN
+                implicit = _OUT
+            elif is_p(it) and isinstance(tgt, ast.Name):
+                env[tgt.id] = _IN
+                implicit = _OUT
+            elif isinstance(it, ast.Call) and ast.unparse(it.func) == "range" \
+                    and isinstance(tgt, ast.Name):
+                free.add(tgt.id)
+                implicit = ("free", tgt.id)
+        return env, free, implicit
+
+    def role(e, env):
+        """role of an integer expression, "ill" when it does not type, None unknown"""
+        if isinstance(e, ast.Name):
+            return env.get(e.id)
+        if isinstance(e, ast.Subscript) and is_p(e.value):
+            r = role(e.slice, env)
+            return _IN if r == _OUT else ("ill" if r == _IN else None)
+        if isinstance(e, ast.Call) and isinstance(e.func, ast.Attribute) \
+                and e.func.attr == "index" and is_p(e.func.value) and len(e.args) == 1:
+            r = role(e.args[0], env)
+            return _OUT if r == _IN else ("ill" if r == _OUT else None)
+        return None
+
+    def typed(exprs, env, free):
+        """the roles of exprs under the one assignment of the free loop variables
+        that types everything; None if there is none or more than one"""
+        import itertools
+        sols = []
+        for combo in itertools.product((_OUT, _IN), repeat=len(free)):
+            e2 = dict(env)
+            e2.update(zip(sorted(free), combo))
+            rs = [x if isinstance(x, str) else e2.get(x[1]) if isinstance(x, tuple)
+                  else role(x, e2) for x in exprs]
+            if "ill" not in rs:
+                sols.append(rs)
+        uniq = {tuple(r) for r in sols}
+        return list(uniq.pop()) if len(uniq) == 1 else None
+    return gens_of, env_of, typed
+
+
+def _axis_number_of(e):
+    """the expression k in prim.Variable(f"_{k}") / Variable("_" + str(k)); the
+    subscript i in <operand shape>[i]; else None"""
+    for n in ast.walk(e):
+        if isinstance(n, ast.JoinedStr) and len(n.values) == 2 \
+                and isinstance(n.values[0], ast.Constant) and n.values[0].value == "_" \
+                and isinstance(n.values[1], ast.FormattedValue):
+            return n.values[1].value
+    return None
+
+
+def r_direction(c):
+    """an axis permutation is applied in ONE direction everywhere: result axis k is
+    operand axis P[k] (AxisPermutation.shape says so).  In the lowering, the index
+    tuple of the operand is numbered by OPERAND axes and holds the index variables
+    `_k` of RESULT axes; the inverse reading type-checks just as well and is right
+    for every involution (all 2-D transposes), which is what tests use"""
+    m = c.model
+    sites = []
+    # (a) the lowering rule
+    fd0 = m.resolve_method(TOIL, "map_axis_permutation")[1]
+    fd = m.expand_locals(m.inlined(fd0), only="aliases")
+    for n in ast.walk(fd):
+        for ch in ast.iter_child_nodes(n):
+            ch._parent = n
+    ep = fd.args.args[1].arg
+    P = f"{ep}.axis_permutation"
+    gens_of, env_of, typed = _perm_roles(fd, P)
+    found = 0
+    for n in ast.walk(fd):
+        # scatter: L[x] = ... Variable(f"_{y}") ...
+        if isinstance(n, ast.Assign) and len(n.targets) == 1 \
+                and isinstance(n.targets[0], ast.Subscript):
+            y = _axis_number_of(n.value)
+            if y is None:
+                continue
+            env, free, _impl = env_of(gens_of(n))
+            rs = typed([n.targets[0].slice, y], env, free)
+            sites.append(("lowering", n, rs, (_IN, _OUT), fd0))
+            found += 1
+        # gather: the items of a comprehension / appended in a loop
+        elif isinstance(n, (ast.ListComp, ast.GeneratorExp)):
+            y = _axis_number_of(n.elt)
+            if y is None:
+                continue
+            env, free, impl = env_of(gens_of(n.elt))
+            if impl is None:
+                continue
+            rs = typed([impl, y], env, free)
+            sites.append(("lowering", n, rs, (_IN, _OUT), fd0))
+            found += 1
+        elif isinstance(n, ast.Call) and isinstance(n.func, ast.Attribute) \
+                and n.func.attr == "append" and len(n.args) == 1:
+            y = _axis_number_of(n.args[0])
+            if y is None:
+                continue
+            env, free, impl = env_of(gens_of(n._parent))
+            if impl is None:
+                continue
+            rs = typed([impl, y], env, free)
+            sites.append(("lowering", n, rs, (_IN, _OUT), fd0))
+            found += 1
+    if not found:
+        raise AnalysisError("anchor vanished: the place where map_axis_permutation puts the "
+                            "index variables `_k` into the operand's index tuple")
+    # (b) the node's own shape: result position k <- operand shape[P[k]]
+    shp = m.resolve_method("pytato.array.AxisPermutation", "shape")[1]
+    sf = m.expand_locals(m.inlined(shp), only="aliases")
+    for n in ast.walk(sf):
+        for ch in ast.iter_child_nodes(n):
+            ch._parent = n
+    gens_of2, env_of2, typed2 = _perm_roles(sf, "self.axis_permutation")
+    found = 0
+    for n in ast.walk(sf):
+        if isinstance(n, (ast.ListComp, ast.GeneratorExp)) and isinstance(n.elt, ast.Subscript) \
+                and ast.unparse(n.elt.value) in ("self.array.shape",):
+            env, free, impl = env_of2(gens_of2(n.elt))
+            if impl is None:
+                continue
+            rs = typed2([impl, n.elt.slice], env, free)
+            sites.append(("shape", n, rs, (_OUT, _IN), shp))
+            found += 1
+    if not found:
+        raise AnalysisError("anchor vanished: AxisPermutation.shape as a sequence of "
+                            "`self.array.shape[..]` items")
+    for what, n, rs, want, anchor in sites:
+        if rs is None or None in rs:
+            raise AnalysisError(f"R02-DIRECTION: cannot tell which axes `{m.frag(n, 80)}` "
+                                "numbers (result or operand)")
+        where = m.loc(m.module_of(anchor), anchor)
+        c.check(tuple(rs) == want, "R02-DIRECTION",
+                "ToIndexLambdaMixin.map_axis_permutation" if what == "lowering"
+                else "AxisPermutation.shape",
+                "operand-positions-hold-result-index-variables" if what == "lowering"
+                else "result-positions-hold-operand-lengths", where,
+                f"`{m.frag(n, 90)}` fills positions numbered by {rs[0]} with "
+                + ("index variables" if what == "lowering" else "lengths")
+                + f" numbered by {rs[1]}; by the node's definition (result axis k is operand "
+                f"axis axis_permutation[k]) it must be {want[0]} / {want[1]}: the inverse "
+                "permutation is applied, which is only right for involutions (2-D transposes)")
+
+
 SPEC = Spec(
     prop="C02",
-    rules=[r_total, r_meta, r_consume, r_bind, r_sibling, r_domain, r_sibling_adv, r_reshape_passthrough, r_concat_offsets, r_einsum_broadcast_first],
+    rules=[r_total, r_meta, r_consume, r_bind, r_sibling, r_domain, r_sibling_adv, r_reshape_passthrough, r_concat_offsets, r_einsum_broadcast_first,
+           r_direction],
     floors={"R02-TOTAL": 21, "R02-META": 49, "R02-CONSUME": 18, "R02-BIND": 14,
-            "R02-DOMAIN": 2, "R02-SIBLING": 4},
+            "R02-DOMAIN": 2, "R02-SIBLING": 4, "R02-DIRECTION": 2},
     explanation=(
         "R02-TOTAL: every high-level kind (derived from the class table: concrete "
         "array kinds with array-valued operands that are not inputs, index "
@@ -637,7 +823,11 @@ SPEC = Spec(
         "counter advanced, per truth value of the tests on the index and its axis length) "
         "is tabulated by case-split evaluation and the three tables are compared; the "
         "two advanced-index lowerings find the advanced indices and their broadcast shape "
-        "alike. "
+        "alike. R02-DIRECTION: a small role inference (result axis / operand axis, from "
+        "enumerate(P), iteration over P, P[e], P.index(e), free range variables fixed by "
+        "their uses) over map_axis_permutation and AxisPermutation.shape: the operand's "
+        "index tuple is numbered by operand axes and holds index variables of result "
+        "axes, the shape is numbered by result axes and holds operand lengths. "
         "R02-BIND also: concatenate offsets are taken from the list of upper bounds (running sum), the upper bounds accumulate; in the einsum lowering, on every path through the per-axis loop the broadcast test (operand length vs. the einsum's length for the descriptor) is evaluated before the descriptor kind is tested, before an index variable is appended and before a binding or reduction bound is recorded, and the arm that appends subscript 0 does nothing else (path events, not statement positions). R02-DOMAIN also: a group of axes reshaped onto itself passes its index variables through at any rank."),
     not_decided=(
         "The index arithmetic itself (slice normalisation, reshape stride/modulo, "
